@@ -293,12 +293,14 @@ def validate(wd, module, executions, cost=None, shards=None, timeout=3000, cfg=N
                     res['mismatches'].append((index[l - 1][0], index[l - 1][1], mm))
                 else:
                     res['errors'].append(f"mismatch with bad line {mm}")
+            broken = 'TIMEOUT' in out or re.search(r'Exception|error occurred|Parsing or semantic|Error: TLC|StackOverflow|OutOfMemory', out)
             if r['depth'] != len(index) + 1:
-                if r['depth'] >= 1 and r['depth'] <= len(index) and not r['mismatches'] and 'TIMEOUT' not in out \
-                        and not re.search(r'Exception|error occurred|Parsing or semantic', out):
+                if 1 <= r['depth'] <= len(index) and not broken:
+                    # TLC stopped because no action of the trace specification is enabled for this event
                     i, ev = index[r['depth'] - 1]
                     res['mismatches'].append((i, ev, {"mismatch": r['depth'], "id": ev.get('id'),
                                                       "expected": "no action of the specification matches this event"}))
+                    res['unconsumed'] = res.get('unconsumed', 0) + (len(index) - r['depth'])
                 else:
                     res['errors'].append("TLC did not consume the trace: " + out[-1500:])
             elif not r['ok'] and not r['mismatches']:
